@@ -49,7 +49,7 @@ def sha(path):
 
 def run_ddsmt(workdir, text, spec, opts, mode='blackbox', plan=None, spec_cc=None,
               ext='.smt2', hashseed='0', wall_limit=300, sigint_after=None, sigint_after_tests=None, verbosity=('-v', ),
-              infile_name=None, keep=False):
+              infile_name=None, keep=False, tmp_base=None):
     """Run ddSMT once.  ``opts`` as for opts_to_argv (+ 'timeout' recommended).
 
     mode 'blackbox': bin/ddsmt as a subprocess.
@@ -59,7 +59,12 @@ def run_ddsmt(workdir, text, spec, opts, mode='blackbox', plan=None, spec_cc=Non
     if os.path.exists(workdir):
         shutil.rmtree(workdir, ignore_errors=True)
     os.makedirs(workdir)
-    tmpdir = os.path.join(workdir, 'tmp')
+    if tmp_base:
+        # ddSMT's TMPDIR on another file system than the output file
+        tmpdir = os.path.join(tmp_base, 'tmp-' + os.path.basename(workdir) + f'-{os.getpid()}')
+        shutil.rmtree(tmpdir, ignore_errors=True)
+    else:
+        tmpdir = os.path.join(workdir, 'tmp')
     os.makedirs(tmpdir)
     infile = os.path.join(workdir, infile_name or ('input' + ext))
     outfile = os.path.join(workdir, 'output' + ext)
@@ -140,6 +145,8 @@ def run_ddsmt(workdir, text, spec, opts, mode='blackbox', plan=None, spec_cc=Non
             r.out_text = f.read()
     r.log = vspec.read_log(log)
     r.tmp_left = sorted(os.listdir(tmpdir))
+    if tmp_base:
+        shutil.rmtree(tmpdir, ignore_errors=True)
     # give stragglers a moment, then look for survivors of the process group
     r.survivors = list_group(p.pid)
     if r.survivors:
